@@ -469,7 +469,7 @@ def check_block(d, blk, ri, op, last_b, commits, owners):
             if t in (blk["TL"].get(c) or []):
                 bad.append(("listed", "topic list of k%d names t%d whose detail is 404" % (c, t), dict(where, topic=(c, t))))
     # ---- /metrics vs the JSON views of the same read phase ----
-    exp = {}
+    exp, opt = {}, {}
     for (c, g), st in blk["GA"].items():
         if st["code"] != 200:
             continue
@@ -478,9 +478,11 @@ def check_block(d, blk, ri, op, last_b, commits, owners):
         for p in st["parts"]:
             lab = (str(c), str(g), str(p["topic"]), str(p["partition"]))
             exp[("PL",) + lab] = fl(p["lag"])
-            if p["complete"] == F32_ONE and p["end"] is not None:
-                exp[("PO",) + lab] = fl(p["end"]["offset"])
-                exp[("PS",) + lab] = p["status"]
+            if p["end"] is not None:
+                # required for a complete window; for an incomplete one the code chooses not to report (allowed either way)
+                tgt = exp if p["complete"] == F32_ONE else opt
+                tgt[("PO",) + lab] = fl(p["end"]["offset"])
+                tgt[("PS",) + lab] = p["status"]
         gs = blk["GS"].get((c, g))
         if gs and (gs["code"], gs["status"], gs["complete"], gs["count"], gs["totallag"], gs["maxlag"]) != \
                 (st["code"], st["status"], st["complete"], st["count"], st["totallag"], st["maxlag"]):
@@ -500,6 +502,11 @@ def check_block(d, blk, ri, op, last_b, commits, owners):
                 bad.append(("disagree", "series %s = %s but the JSON view of the same moment gives %d" % (":".join(k), M[k], v),
                             dict(where, key=k)))
     for k in M:
+        if k in opt:
+            if M[k] != str(opt[k]):
+                bad.append(("disagree", "series %s = %s but the JSON view of the same moment gives %d" % (":".join(k), M[k], opt[k]),
+                            dict(where, key=k)))
+            continue
         if k not in exp and k not in gone_keys:
             nd += 1
             if nd <= 3:
